@@ -16,11 +16,22 @@ import Nq.Lemmas.UsersNewu
 import Nq.Lemmas.UsersCdbBytes
 import Nq.Lemmas.UsersCdbRobust
 import Nq.Lemmas.UsersCdbDump
+import Nq.Lemmas.UsersIdent
 
 namespace Nq.Props.C11
 open Nq Nq.Users Nq.Spec.Users Nq.Gen.Lspawn Nq.Lemmas.Users
 
-/-! ## order of the privileged calls; never root -/
+/-! ## order of the privileged calls; never root
+
+  Honest labelling (audit round): `C11_order`, `C11_order_docmd`, `C11_argv`, `C11_runs_assigned_user`, `C11_never_root`
+  are statements about the model's `dropAndExec`, which emits `setgroups, setgid, setuid, getuid, execv` in that order BY
+  CONSTRUCTION (it transcribes the tail of spawn()); what is proved is that no other path of `spawnChild` (lookup, getpw
+  child, faults) reaches an execv, and that the ids/argv are those of the parsed record.  That the real spawn() makes these
+  calls in this order with these arguments is established by trace replay (harness + DISAGREE channel + the `guardedAny`
+  / `traceOk` / `specChild` oracles on the recorded calls), not by these theorems.  `C11_argv` & co. are conditional on a
+  model fact (`nughdeGet … = (evs, .hit x)`); the unconditional, composed statements are `C11_identity`,
+  `C11_identity_faults`, `C11_child_defers` below, and `parseNughde` is tied to the record's fields by `C11_record_parse`,
+  `C11_record_fields`, `C11_table_record`, `C11_passwd_record`. -/
 
 /-- Whatever the tables, the passwd database, the recipient and the injected fault: qmail-local is executed only
     immediately after successful `setgroups [g]`, `setgid g`, `setuid u` and a `getuid` that returned `u ≠ 0`. -/
@@ -61,21 +72,8 @@ theorem C11_order_docmd (env : Env) (flt : Fault) (sender recip : Bytes) :
     `[bin/qmail-local, --, user, home, local, dash, ext, domain, sender, aliasempty]`. -/
 theorem C11_argv (env : Env) (flt : Fault) (sender loc dom : Bytes) (evs : List Ev) (x : Bytes) (id : Ident)
     (h : nughdeGet env flt loc = (evs, .hit x)) (hp : parseNughde x = some id) :
-    traceOk env id loc dom sender [] (spawnChild env flt sender loc dom).1 = true := by
-  have hq := nughdeGet_quiet env flt loc
-  rw [h] at hq
-  have hc : isExecLocal (Ev.chdir env.autoQmail) = false := rfl
-  unfold spawnChild
-  split
-  · simp [traceOk]
-  · split
-    · simp [traceOk, execOk]
-    · simp only [h, hp]
-      have hq2 : Quiet (Ev.chdir env.autoQmail :: (evs ++ [Ev.fdmove 0, Ev.fdmove 1, Ev.fdcopy 2])) :=
-        quiet_cons hc (quiet_append hq quiet_fds)
-      have := traceOk_quiet env id loc dom sender _ [] (dropAndExec env flt id loc dom sender).1 hq2
-      rw [List.cons_append] at this
-      rw [this]; exact dropAndExec_traceOk ..
+    traceOk env id loc dom sender [] (spawnChild env flt sender loc dom).1 = true :=
+  spawnChild_traceOk_hit env flt sender loc dom evs x id h hp
 
 /-- … and it is started: with no fault and a non-zero uid the child's calls are exactly
     chdir, (the qmail-getpw child's calls), fd moves, setgroups, setgid, setuid, getuid, execv. -/
@@ -126,50 +124,37 @@ theorem C11_defer_crash : reportCrashed = 90 := by decide
     failing: NFS, passwd busy, no alias user) are all reported as `Z`: a lookup error defers, it never bounces -/
 theorem C11_lookup_error_defers (env : Env) (flt : Fault) (loc : Bytes) (evs : List Ev) (c : Nat)
     (h : nughdeGet env flt loc = (evs, .exit c)) : reportByte c = 90 := by
-  have key : c ∈ [QLX_CDB, QLX_SYS, QLX_USAGE, QLX_EXECPW, QLX_NFS, QLX_NOALIAS] := by
-    unfold nughdeGet at h
-    split at h
-    · simp at h; simp [h.2]
-    · split at h
-      · simp at h
-      · rename_i c' hc
-        simp only [Prod.mk.injEq, NgRes.exit.injEq] at h
-        have := nughdeCdb_exit _ _ _ hc
-        simp [← h.2, this]
-      · split at h
-        · simp at h; simp [← h.2]
-        · split at h
-          · rename_i evs' c' hg
-            have hc' : c' ≠ 0 ∧ c' = c := by
-              by_cases h0 : c' = 0
-              · simp [h0] at h
-              · simp [h0] at h; exact ⟨h0, h.2⟩
-            rw [← hc'.2]
-            unfold getpwChild at hg
-            split at hg
-            · simp at hg; simp [← hg.2]
-            · split at hg
-              · simp at hg; simp [← hg.2]
-              · split at hg
-                · simp at hg; simp [← hg.2]
-                · split at hg
-                  · simp at hg; simp [← hg.2]
-                  · simp only [Prod.mk.injEq] at hg
-                    have hm := hg.2
-                    rw [getpwMain_eq_spec] at hm
-                    unfold specGetpw at hm
-                    split at hm
-                    · simp at hm
-                    · simp at hm; simp [← hm]
-                    · simp at hm; simp [← hm]
-                    · split at hm
-                      · split at hm
-                        · simp at hm; simp [← hm]
-                        · simp at hm
-                      · simp at hm; simp [← hm]
-          · simp at h
+  have key := nughdeGet_exit_codes env flt loc evs c h
   have hall : ∀ c ∈ [QLX_CDB, QLX_SYS, QLX_USAGE, QLX_EXECPW, QLX_NFS, QLX_NOALIAS], reportByte c = 90 := by decide
   exact hall c key
+
+/-- **Whole-child deferral.** EVERY way the delivery child can end without running qmail-local — under every table,
+    passwd database, recipient and fault — is: exit 0 for the null recipient only; QLX_EXECHARD only when `execv` of
+    qmail-local itself failed permanently; otherwise an exit code that report() turns into `Z` (deferral).  Covers the
+    exits of spawn() proper (chdir failure, malformed record, `prot_gid`/`prot_uid` failure, QLX_ROOT, EXECSOFT) and of
+    nughde_get.  (An inductive consequence of the model's control flow + the regenerated report table, not a restated
+    guard.) -/
+theorem C11_child_defers (env : Env) (flt : Fault) (sender loc dom : Bytes) (c : Nat)
+    (h : (spawnChild env flt sender loc dom).2 = .exit c) :
+    (c = 0 ∧ loc = []) ∨ (c = QLX_EXECHARD ∧ flt = .execHard) ∨ reportByte c = 90 := by
+  rcases spawnChild_exit env flt sender loc dom c h with h' | h' | h'
+  · exact Or.inl h'
+  · exact Or.inr (Or.inl h')
+  · have hall : ∀ c ∈ [QLX_CDB, QLX_SYS, QLX_USAGE, QLX_EXECPW, QLX_NFS, QLX_NOALIAS, QLX_ROOT, QLX_EXECSOFT],
+        reportByte c = 90 := by decide
+    exact Or.inr (Or.inr (hall c h'))
+
+/-- the same for docmd() (a recipient without `@` is answered by docmd itself: `.refused`, not an exit) -/
+theorem C11_docmd_defers (env : Env) (flt : Fault) (sender recip : Bytes) (c : Nat)
+    (h : (docmd env flt sender recip).2 = .exit c) :
+    c = 0 ∨ (c = QLX_EXECHARD ∧ flt = .execHard) ∨ reportByte c = 90 := by
+  unfold docmd at h
+  split at h
+  · simp at h
+  · rcases C11_child_defers _ _ _ _ _ c h with h' | h' | h'
+    · exact Or.inl h'.1
+    · exact Or.inr (Or.inl h')
+    · exact Or.inr (Or.inr h')
 
 /-- report() beyond its first byte: for every lookup/identity error code the WHOLE report is a fixed single line
     `Z…\n` — it does not depend on what the child wrote, contains no NUL and no inner LF (so qmail-send reads exactly one
@@ -418,6 +403,175 @@ theorem C11_any_cdb_exit (f : Option Bytes) (loc : Bytes) (c : Nat) (h : nughdeC
   subst this
   exact ⟨rfl, by decide⟩
 
+/-! ## what a record says: the model's parser and argv layout against the declarative reading -/
+
+/-- the six `byte_chr`/`scan_ulong` steps of spawn() = the declarative reading of a nughde record (split at every NUL,
+    six NUL-terminated fields, numbers = leading decimal digits as a 32-bit id), for EVERY byte string — so the
+    `parseNughde` in `C11_argv`, `C11_runs_assigned_user`, `C11_never_root` can be read as `specRecord` -/
+theorem C11_record_parse (x : Bytes) : parseNughde x = specRecord x :=
+  parseNughde_eq_specRecord x
+
+/-- a record `user NUL uid NUL gid NUL home NUL dash NUL pre` + remainder of the address + NUL reads as exactly those
+    fields: uid/gid = value of the leading digits of the field modulo 2^32 (no digits — `+5`, ` 5`, empty — give 0, which
+    `C11_never_root` refuses), ext = pre followed by the remainder -/
+theorem C11_record_fields (u ui gi ho da ex rest : Bytes)
+    (hu : NUL ∉ u) (hui : NUL ∉ ui) (hgi : NUL ∉ gi) (hho : NUL ∉ ho) (hda : NUL ∉ da) (hex : NUL ∉ ex) (hr : NUL ∉ rest) :
+    parseNughde (joinNul [u, ui, gi, ho, da, ex] ++ rest ++ [NUL]) =
+      some ⟨u, decVal (ui.takeWhile isDigit) % 4294967296, decVal (gi.takeWhile isDigit) % 4294967296, ho, da, ex ++ rest⟩ := by
+  rw [parseNughde_eq_specRecord, specRecord_fields u ui gi ho da ex rest hu hui hgi hho hda hex hr]
+  rfl
+
+/-- … hence, in terms of the TEXT of users/assign: a line the declarative reading accepts has colon-separated fields
+    `f0:user:uid:gid:home:dash:pre:…`, and the record it contributes, completed by nughde_get with the remainder `rest` of
+    the address (`[]` for a simple assignment), is parsed by spawn() into exactly these fields of the line -/
+theorem C11_table_record (line : Bytes) (a : Asg) (h : specLine line = some a) :
+    ∃ f0 u ui gi ho da ex x xs, splitOn COLON line = f0 :: u :: ui :: gi :: ho :: da :: ex :: x :: xs ∧
+      a.wild = (f0.head? == some PLUS) ∧ a.name = lower (f0.drop 1) ∧
+      ∀ rest, NUL ∉ rest →
+        parseNughde (a.data ++ rest ++ [NUL]) =
+          some ⟨u, decVal (ui.takeWhile isDigit) % 4294967296, decVal (gi.takeWhile isDigit) % 4294967296,
+                ho, da, ex ++ rest⟩ := by
+  unfold specLine at h
+  by_cases hn : line.contains NUL = true
+  · rw [if_pos hn] at h; cases h
+  · have hnul : NUL ∉ line := by simpa using hn
+    rw [if_neg hn] at h
+    have hmem := splitOn_mem COLON line
+    rcases hs : splitOn COLON line with _ | ⟨f0, _ | ⟨u, _ | ⟨ui, _ | ⟨gi, _ | ⟨ho, _ | ⟨da, _ | ⟨ex, _ | ⟨x, xs⟩⟩⟩⟩⟩⟩⟩⟩ <;>
+      rw [hs] at h <;> simp only [reduceCtorEq] at h
+    rw [hs] at hmem
+    have nf : ∀ f, f ∈ f0 :: u :: ui :: gi :: ho :: da :: ex :: x :: xs → NUL ∉ f :=
+      fun f hf hc => hnul (hmem f hf NUL hc)
+    by_cases he : f0.isEmpty = true
+    · simp [he] at h
+    · simp only [he, Bool.false_eq_true, if_false, Option.some.injEq] at h
+      subst h
+      refine ⟨f0, u, ui, gi, ho, da, ex, x, xs, rfl, rfl, rfl, ?_⟩
+      intro rest hr
+      exact C11_record_fields u ui gi ho da ex rest (nf u (by simp)) (nf ui (by simp)) (nf gi (by simp))
+        (nf ho (by simp)) (nf da (by simp)) (nf ex (by simp)) hr
+
+/-- … and in terms of the PASSWORD FILE: the line qmail-getpw prints for an account (`fmt_ulong` of uid and gid) is parsed
+    by spawn() (`scan_ulong`) into exactly the account's name, uid, gid (as 32-bit ids), home, and the dash/ext it chose -/
+theorem C11_passwd_record (pw : PwEnt) (dash ext : Bytes)
+    (hn : NUL ∉ pw.name) (hd : NUL ∉ pw.dir) (hda : NUL ∉ dash) (hex : NUL ∉ ext) :
+    parseNughde (pwLine pw dash ext) =
+      some ⟨pw.name, pw.uid % 4294967296, pw.gid % 4294967296, pw.dir, dash, ext⟩ := by
+  have hshape : pwLine pw dash ext = joinNul [pw.name, fmtDec pw.uid, fmtDec pw.gid, pw.dir, dash, ext] ++ [] ++ [NUL] := by
+    simp [pwLine, joinNul, List.append_assoc]
+  rw [hshape, C11_record_fields _ _ _ _ _ _ [] hn (fmtDec_nul _) (fmtDec_nul _) hd hda hex (by simp),
+    (fmtDec_spec pw.uid).2, (fmtDec_spec pw.gid).2]
+  simp
+
+/-- the argv the model's spawn() builds is the argument list written down from qmail-local(8) in the spec
+    (`bin/qmail-local -- user homedir local dash ext domain sender defaultdelivery`) -/
+theorem C11_argv_layout (env : Env) (id : Ident) (loc dom sender : Bytes) :
+    argvOf env id loc dom sender = specArgv env id loc dom sender := rfl
+
+/-! ## the composed identity: "the assignment table, or else the password-file rules" -/
+
+/-- with users/cdb installed by qmail-newu from a users/assign that reads as `tbl` (or absent: `tbl = none`), the cdb part
+    of nughde_get answers what the table says -/
+theorem C11_installed_lookup (env : Env) (tbl : Option (List Asg)) (hI : Installed env tbl) (loc : Bytes) (hl : NUL ∉ loc) :
+    nughdeCdb env.cdb loc =
+      match tbl.bind (fun t => specLookup t loc) with
+      | some r => .hit r
+      | none => .miss := by
+  cases tbl with
+  | none =>
+    have : env.cdb = none := hI
+    rw [this]; rfl
+  | some t =>
+    obtain ⟨assign, f, hc, hn, hsz, hp⟩ := hI
+    obtain ⟨t', hp', hlk⟩ := C11_assign_to_nughde assign f hn hsz loc hl
+    have : t' = t := Option.some.inj (hp'.symm.trans hp)
+    subst this
+    rw [hc, hlk]
+    rfl
+
+/-- **nughde_get as a whole** (no failing call): the record the assignment table gives the address, without any child
+    process; or else — the table does not cover it, or there is no users/cdb — what the password-file rules print, after
+    the qmail-getpw child has been run as qmailp/nofiles; or else the exit code of that failing lookup.
+    This is the fall-through clause that so far existed only as the `if` nest of `nughdeGet`. -/
+theorem C11_identity_lookup (env : Env) (tbl : Option (List Asg)) (hI : Installed env tbl) (loc : Bytes) (hl : NUL ∉ loc) :
+    nughdeGet env .none loc =
+      match specIdentity tbl env.pw loc with
+      | .table r => ([], .hit r)
+      | .passwd r => (gpwEvents env loc, .hit r)
+      | .fail c => (gpwEvents env loc, .exit c) := by
+  rw [nughdeGet_identity env tbl loc (C11_installed_lookup env tbl hI loc hl)]
+  cases specIdentity tbl env.pw loc <;> rfl
+
+/-- **The composed identity theorem.** users/cdb compiled by qmail-newu from users/assign (or absent), any passwd
+    database, any non-empty NUL-free local part, no failing call: the delivery child does EXACTLY what the tables dictate
+    (`specChild`, written in the spec without reference to the model): chdir, the lookup's child if the table does not
+    cover the address, then for the record of `specIdentity` read by `specRecord`: fds, `setgroups [gid]`, `setgid gid`,
+    `setuid uid`, `getuid`, and `execv bin/qmail-local` with `specArgv` (user, home, local, dash, ext, domain, sender,
+    aliasempty) — outcome exec; uid 0 ⇒ QLX_ROOT before any exec; malformed record ⇒ QLX_USAGE; failing password lookup ⇒
+    its code.  Composes `C11_newu_parse`, `C11_cdb_roundtrip`, `C11_lookup_spec`, `C11_getpw_spec`, `C11_record_parse`. -/
+theorem C11_identity (env : Env) (tbl : Option (List Asg)) (hI : Installed env tbl) (sender loc dom : Bytes)
+    (hl : NUL ∉ loc) (hne : loc ≠ []) :
+    spawnChild env .none sender loc dom = specChild env (specIdentity tbl env.pw loc) sender loc dom :=
+  spawnChild_none env sender loc dom hne _
+    (nughdeGet_identity env tbl loc (C11_installed_lookup env tbl hI loc hl))
+
+/-- … and under EVERY single-call fault: with `id` the identity the tables dictate, every execv of qmail-local that
+    still happens follows the drop to exactly `id.gid`/`id.uid ≠ 0` and carries exactly `specArgv … id …`; and when the
+    tables dictate no runnable identity (failing lookup, malformed record, uid 0) nothing is executed at all. -/
+theorem C11_identity_faults (env : Env) (tbl : Option (List Asg)) (hI : Installed env tbl) (flt : Fault)
+    (sender loc dom : Bytes) (hl : NUL ∉ loc) :
+    match (specIdentity tbl env.pw loc).record?.bind specRecord with
+    | some id =>
+      traceOk env id loc dom sender [] (spawnChild env flt sender loc dom).1 = true ∧
+      (id.uid = 0 → noExec (spawnChild env flt sender loc dom).1 = true ∧ (spawnChild env flt sender loc dom).2 ≠ .exec)
+    | none =>
+      noExec (spawnChild env flt sender loc dom).1 = true ∧ (spawnChild env flt sender loc dom).2 ≠ .exec := by
+  have h0 := nughdeGet_identity env tbl loc (C11_installed_lookup env tbl hI loc hl)
+  -- a failing call leaves the lookup's answer as it is, or turns it into an exit
+  have hexit : ∀ evs c, nughdeGet env flt loc = (evs, .exit c) →
+      noExec (spawnChild env flt sender loc dom).1 = true ∧ (spawnChild env flt sender loc dom).2 ≠ .exec := by
+    intro evs c he
+    obtain ⟨hq, c', hc', _⟩ := spawnChild_of_lookup_exit env flt sender loc dom evs c he
+    exact ⟨noExec_of_quiet _ hq, by rw [hc']; simp⟩
+  have hexitT : ∀ id evs c, nughdeGet env flt loc = (evs, .exit c) →
+      traceOk env id loc dom sender [] (spawnChild env flt sender loc dom).1 = true := by
+    intro id evs c he
+    obtain ⟨hq, _⟩ := spawnChild_of_lookup_exit env flt sender loc dom evs c he
+    exact traceOk_of_quiet _ _ _ _ _ _ _ hq
+  have hrec : ∀ evs r, nughdeGet env .none loc = (evs, .hit r) →
+      match specRecord r with
+      | some id =>
+        traceOk env id loc dom sender [] (spawnChild env flt sender loc dom).1 = true ∧
+        (id.uid = 0 → noExec (spawnChild env flt sender loc dom).1 = true ∧ (spawnChild env flt sender loc dom).2 ≠ .exec)
+      | none =>
+        noExec (spawnChild env flt sender loc dom).1 = true ∧ (spawnChild env flt sender loc dom).2 ≠ .exec := by
+    intro evs r hn
+    rcases nughdeGet_fault env flt loc with he | ⟨evs', c, he, _⟩
+    · rw [hn] at he
+      cases hs : specRecord r with
+      | none =>
+        obtain ⟨hq, hx⟩ := spawnChild_noExec_hit env flt sender loc dom evs r he
+          (by intro id hp; rw [parseNughde_eq_specRecord, hs] at hp; cases hp)
+        exact ⟨noExec_of_quiet _ hq, hx⟩
+      | some id =>
+        refine ⟨spawnChild_traceOk_hit env flt sender loc dom evs r id he (by rw [parseNughde_eq_specRecord, hs]), ?_⟩
+        intro hu
+        obtain ⟨hq, hx⟩ := spawnChild_noExec_hit env flt sender loc dom evs r he
+          (by intro id' hp; rw [parseNughde_eq_specRecord, hs] at hp; cases hp; exact hu)
+        exact ⟨noExec_of_quiet _ hq, hx⟩
+    · cases hs : specRecord r with
+      | none => exact hexit evs' c he
+      | some id => exact ⟨hexitT id evs' c he, fun _ => hexit evs' c he⟩
+  cases hw : specIdentity tbl env.pw loc with
+  | table r => rw [hw] at h0; exact hrec _ r h0
+  | passwd r => rw [hw] at h0; exact hrec _ r h0
+  | fail c =>
+    rw [hw] at h0
+    show noExec _ = true ∧ _
+    rcases nughdeGet_fault env flt loc with he | ⟨evs', c', he, _⟩
+    · rw [h0] at he; exact hexit _ c he
+    · exact hexit evs' c' he
+
 /-! ## which user: the password-file rules -/
 
 /-- qmail-getpw's loop = the declarative rules: the longest `user[-ext]` split (user part shorter than 32 bytes,
@@ -506,5 +660,45 @@ example : ((docmd exEnv .none [115] [74, 111, 101, 45, 120, 64, 100]).1.getLast?
   decide
 -- with setuid failing nothing is executed and the exit code defers
 example : (docmd exEnv .setuid [115] [106, 111, 101, 64, 100]).2 = .exit QLX_USAGE := by decide
+
+/-! non-vacuity of the audit-round theorems -/
+
+/-- the declarative reading of `exAssign` -/
+def exAssignTbl : List Asg :=
+  [⟨true, [97], [119, 0, 49, 0, 50, 0, 47, 104, 0, 45, 0, 112]⟩, ⟨false, [98], [117, 0, 51, 0, 52, 0, 47, 0, 0]⟩]
+
+-- `Installed` is satisfiable: the passwd-only environment with the compiled `exAssign` as users/cdb; and without users/cdb
+example : ∃ f, Installed { exEnv with cdb := some f } (some exAssignTbl) :=
+  ⟨_, exAssign, _, rfl, rfl, by decide +kernel, by decide⟩
+example : Installed exEnv none := rfl
+-- "Ax" is covered by the table (wildcard `+a`, pre "p", remainder "x"): record w/1/2//h/-/px, no child process
+example : specIdentity (some exAssignTbl) exEnv.pw [65, 120] = .table [119, 0, 49, 0, 50, 0, 47, 104, 0, 45, 0, 112, 120, 0] := by decide
+example : specRecord [119, 0, 49, 0, 50, 0, 47, 104, 0, 45, 0, 112, 120, 0] = some ⟨[119], 1, 2, [47, 104], [45], [112, 120]⟩ := by decide
+-- "Joe-x" is not: the password-file rules give joe (1001/100, /h), dash "-", ext "x"
+example : specIdentity (some exAssignTbl) exEnv.pw [74, 111, 101, 45, 120] =
+    .passwd [106, 111, 101, 0, 49, 48, 48, 49, 0, 49, 48, 48, 0, 47, 104, 0, 45, 0, 120, 0] := by decide
+-- … and the whole child for it: chdir, the four calls of the qmail-getpw child, fds, drop to 100/1001, execv
+example : specChild exEnv (specIdentity (some exAssignTbl) exEnv.pw [74, 111, 101, 45, 120]) [115] [74, 111, 101, 45, 120] [100] =
+    ([.chdir [47]] ++ gpwEvents exEnv [74, 111, 101, 45, 120] ++
+      [.fdmove 0, .fdmove 1, .fdcopy 2, .setgroups 1 100 true, .setgid 100 true, .setuid 1001 true, .getuid 1001,
+       .execv localPath [localPath, [45, 45], [106, 111, 101], [47, 104], [74, 111, 101, 45, 120], [45], [120], [100], [115], [46]]],
+     .exec) := by decide
+-- no alias user and an unknown address: the lookup fails with QLX_NOALIAS
+example : specIdentity none { pws := [], dirs := [] } [120] = .fail QLX_NOALIAS := by decide
+-- a uid field without leading digits (`+5`) reads as uid 0 — refused by `C11_never_root`; 4294967296 wraps to 0
+example : (specRecord [117, 0, 43, 53, 0, 50, 0, 47, 0, 0, 0]).map (·.uid) = some 0 := by decide
+example : (specRecord [117, 0, 52, 50, 57, 52, 57, 54, 55, 50, 57, 54, 0, 50, 0, 47, 0, 0, 0]).map (·.uid) = some 0 := by decide
+-- five NULs only: malformed
+example : specRecord [117, 0, 49, 0, 50, 0, 47, 0, 45, 0, 120] = none := by decide
+-- 8-bit names: `case_lowerb` folds ASCII only — "MÜLLER" (UTF-8 c3 9c) lower-cases to "mÜller", not to "müller" (c3 bc);
+-- 0xC1 ('A' + 0x80) is left alone
+example : lower [77, 195, 156, 76, 76, 69, 82] = [109, 195, 156, 108, 108, 101, 114] := by decide
+example : lower [193, 201, 255, 127, 1] = [193, 201, 255, 127, 1] := by decide
+example : specLookup [⟨false, [109, 195, 188, 108, 108, 101, 114], [65]⟩, ⟨true, [], [66]⟩] [77, 195, 188, 76, 76, 69, 82] = some [65, 0] := by decide
+example : specLookup [⟨false, [109, 195, 188, 108, 108, 101, 114], [65]⟩, ⟨true, [], [66]⟩] [77, 195, 156, 76, 76, 69, 82] =
+    some [66, 77, 195, 156, 76, 76, 69, 82, 0] := by decide
+-- the same 8-bit key through the bytes of the compiled file (reader and writer hash the byte as unsigned)
+example : cdbGet (cdbMake [([33, 109, 195, 188, 0], [1]), ([33, 233, 45], [2])]) [33, 109, 195, 188, 0] = .found [1] := by decide +kernel
+example : cdbGet (cdbMake [([33, 109, 195, 188, 0], [1]), ([33, 233, 45], [2])]) [33, 233, 45] = .found [2] := by decide +kernel
 
 end Nq.Props.C11
